@@ -13,7 +13,7 @@ from .. import vlib
 from ..vlib import f2bits
 from . import _stream as S
 
-LEAN_TARGETS = ["SkaModel.Props.C03"]
+LEAN_TARGETS = ["SkaModel.Props.C03", "SkaModel.Props.C03dens"]
 # theorems about, and the executable of, the model translated from the current Python source on every run
 GEN_TARGETS = ["SkaModel.Props.StreamGen", "skagendriver"]
 
@@ -262,6 +262,29 @@ def generate(ctx):
         ctx.gen_failed = False  # the previous generated file is still in place; its tie is reported broken above
 
 
+def density_windows(ctx, n):
+    """`window_` / `min_dist_` / `_calculate_ldf` of StreamDensityBasedAL against `Core/Density.lean`: after every query (which
+    must put both deques back) and every update, the window contents, the minimal distances and the density-filter outcome
+    of every instance (bit-exact; Manhattan distance on grid points)."""
+    rng = ctx.rng
+    lines, expect = [], []
+    for _ in range(n):
+        try:
+            ws, toks, segs = S.density_window_history(rng)
+        except Exception as e:  # noqa: BLE001  (a changed implementation may raise inside the history: an observation)
+            ctx.broken.append(f"StreamDensityBasedAL raised inside a plain query / update history: {type(e).__name__}: {str(e)[:120]}")
+            break
+        lines.append(S.density_window_line(ws, toks))
+        expect.append((" ; ".join(segs), dict(window_size=ws, calls=toks)))
+        ctx.case(("dens", ws, tuple(toks)), len(toks) >= 3, sample=dict(kind="density-window", window_size=ws, calls=len(toks), last=segs[-1][:80]))
+        ctx.count("density_window_histories")
+        ctx.count("density_window_calls", len(toks))
+    outs = vlib.run_driver(lines)
+    for line, out, (impl, case) in zip(lines, outs, expect):
+        if out.split() != impl.split():
+            ctx.disagree("SkaModel.Core.Density vs StreamDensityBasedAL (window_, min_dist_, _calculate_ldf)", dict(case, line=line[:300]), out[:500], impl[:500])
+
+
 def correspond(ctx):
     rng = ctx.rng
     lines, expect = [], []
@@ -271,6 +294,7 @@ def correspond(ctx):
             spec = S.gen_case(rng, kind, boundary=(t % 3 == 0), n=rng.randint(2, 40))
             manager_case(ctx, lines, expect, spec, rng)
     S.compare_models(ctx, lines, expect)
+    density_windows(ctx, 150 if not ctx.thorough else 1500)
     names, missing = S.strategy_grid()
     if missing:
         ctx.broken.append(f"classes exported by skactiveml.stream that the C03 grid does not cover: {missing}")
